@@ -151,7 +151,9 @@ theorem evalX_ctx (E : Env) : ∀ (e : Expr) (ap : Bool) (st : St) r st',
   | .unsup _, ap, st, r, st', h => by simp only [evalX, unsup] at h; cases h
   | .var n, ap, st, r, st', h => by
     simp only [evalX, pure_eq_ok] at h
-    split at h <;> (cases h; rfl)
+    split at h
+    · cases h; rfl
+    · split at h <;> (cases h; rfl)
   | .unary op e, ap, st, r, st', h => by
     simp only [evalX] at h
     obtain ⟨⟨⟨v, fl⟩, st1⟩, h1, h⟩ := bind_ok h
@@ -623,7 +625,7 @@ theorem Link_var (E : Env) (vars) (x name : Bytes) (h : getKV x vars = some (.st
     Link E vars (.var x) name := by
   intro st hv hm hp
   refine ⟨.str name, [], ?_, rfl⟩
-  simp only [evalX, Ctx.getMacro, Ctx.getVar, hv, hm, hp, getKV_nil, scopesMacro, pure_eq_ok, h]
+  simp only [evalX, Ctx.hasVar, Ctx.getVar, hv, h, Option.isSome_some, Bool.true_or, if_true, pure_eq_ok]
 
 /-- `T₀ extends T₁ extends … extends T_k` (most derived first): every template is registered under its
     name, every non-last one hands over to the next one, the last one has no `extends` -/
@@ -1373,28 +1375,62 @@ theorem route_mcall_function {E : Env} {ap : Bool} {obj : Expr} {nm : Bytes} {ar
   | map kvs => exact absurd rfl (hnomod kvs)
   | _ => simp only [callFunction_macro hplain hmac1, ok_bind, pure_eq_ok]
 
-/-- `_self.name(args)` -/
+/-! ### evaluating a name: a variable shadows a macro of the same name -/
+
+theorem evalVar_of_hasVar {E : Env} {ap : Bool} {n : Bytes} {st : St} (h : st.ctx.hasVar n = true) :
+    evalX E ap (.var n) st = .ok ((st.ctx.getVar n, []), st) := by
+  simp only [evalX, h, if_true, pure_eq_ok]
+
+theorem evalVar_of_noMacro {E : Env} {ap : Bool} {n : Bytes} {st : St} (h : st.ctx.getMacro n = none) :
+    evalX E ap (.var n) st = .ok ((st.ctx.getVar n, []), st) := by
+  simp only [evalX, h, pure_eq_ok]
+  split <;> rfl
+
+theorem scopesVar_ne_null {k : Bytes} : ∀ {ps : List Scope}, scopesVar k ps ≠ .null →
+    ps.any (fun s => (getKV k s.vars).isSome) = true
+  | [], h => absurd rfl h
+  | s :: r, h => by
+    simp only [scopesVar] at h
+    simp only [List.any_cons, Bool.or_eq_true]
+    cases hs : getKV k s.vars with
+    | some v => left; rfl
+    | none => rw [hs] at h; right; exact scopesVar_ne_null h
+
+/-- a name that reads as something other than null is a defined variable -/
+theorem hasVar_of_getVar_ne_null {c : Ctx} {k : Bytes} (h : c.getVar k ≠ .null) : c.hasVar k = true := by
+  simp only [Ctx.getVar] at h
+  simp only [Ctx.hasVar, Bool.or_eq_true]
+  cases hs : getKV k c.vars with
+  | some v => left; rfl
+  | none => rw [hs] at h; right; exact scopesVar_ne_null h
+
+/-- `_self.name(args)`: `_self` is a variable or at least not a macro, and does not hold a module map -/
 theorem route_self {E : Env} {ap : Bool} {nm : Bytes} {args : List Expr} {st st1 : St}
     {av : List Val} {L m : Bytes}
     (hallow : denied E st.ctx E.allowedFunctions nm = false)
-    (hselfm : st.ctx.getMacro (b "_self") = none) (hselfv : st.ctx.getVar (b "_self") = .null)
+    (hself : st.ctx.hasVar (b "_self") = true ∨ st.ctx.getMacro (b "_self") = none)
+    (hselfv : ∀ kvs, st.ctx.getVar (b "_self") ≠ .map kvs)
     (hargs : evalArgs E args st = .ok (av, st1))
     (hplain : plainName E nm)
     (hmac : st.ctx.getMacro nm = some (L, m)) :
     evalX E ap (.mcall (.var (b "_self")) nm args) st = .ok ((.callable L m av, []), st1) := by
-  refine route_mcall_function (o := .null) (fl := []) hallow ?_ (fun _ h => by cases h) hargs hplain hmac
-  simp only [evalX, hselfm, hselfv, pure_eq_ok]
+  refine route_mcall_function (o := st.ctx.getVar (b "_self")) (fl := []) hallow ?_ hselfv hargs hplain hmac
+  rcases hself with h | h
+  · exact evalVar_of_hasVar h
+  · exact evalVar_of_noMacro h
 
-/-- `lib.name(args)` where the variable `lib` holds a module map (made by `import … as lib`) -/
+/-- `lib.name(args)` where the variable `lib` holds a module map (made by `import … as lib`); a macro
+    that happens to be called `lib` too does not matter: the variable shadows it -/
 theorem route_import {E : Env} {ap : Bool} {lib nm : Bytes} {args : List Expr} {st st1 : St}
     {kvs : List (Bytes × Val)} {av : List Val} {L m : Bytes}
     (hallow : denied E st.ctx E.allowedFunctions nm = false)
-    (hlibm : st.ctx.getMacro lib = none) (hlibv : st.ctx.getVar lib = .map kvs)
+    (hlibv : st.ctx.getVar lib = .map kvs)
     (hmod : mapGet nm kvs = some (.macro L m))
     (hargs : evalArgs E args st = .ok (av, st1)) :
     evalX E ap (.mcall (.var lib) nm args) st = .ok ((.callable L m av, []), st1) := by
-  simp only [evalX, allowedCheck, hallow, Bool.and_false, Bool.false_eq_true, if_false, ok_bind, hlibm, hlibv,
-    pure_eq_ok, hargs, hmod]
+  have hv : st.ctx.hasVar lib = true := hasVar_of_getVar_ne_null (by rw [hlibv]; exact fun h => by cases h)
+  simp only [evalX, allowedCheck, hallow, Bool.and_false, Bool.false_eq_true, if_false, ok_bind,
+    pure_eq_ok, hv, if_true, hlibv, hargs, hmod]
 
 /-- printing the closure of a macro call calls the macro -/
 theorem printVal_callable (go : Go) (L m : Bytes) (av : List Val) (st : St) :
